@@ -65,7 +65,7 @@ def parse_genrw():
     txt = open(os.path.join(vlib.COQ, "gen", "GenRW.v")).read()
 
     def block(name):
-        m = re.search(r"Definition %s[^=]*:=\s*\[(.*?)\]\." % name, txt, flags=re.S)
+        m = re.search(r"Definition %s[^=]*:=\s*\[(.*?)\n\]\." % name, txt, flags=re.S)   # the list ends with "]." on its own line
         return re.findall(r'\("([^"]+)",\s*"([^"]+)"(?:,\s*"([^"]+)")?\)', m.group(1)) if m else []
     schema = {"%s.%s" % (t, f): r for t, f, r in block("rw_schema")}
     reads = set("%s.%s" % (t, f) for t, f, _ in block("rw_reads_from"))
